@@ -41,19 +41,19 @@ TEXT = {
     ),
     "C08": dict(
         technique="property-based testing (rapid timing patterns) on a virtual clock (testing/synctest); gap bounds as oracle",
-        level_text="Exploration: send/TestRequest instants are generated relative to heartbeat deadlines (just before, at, just after, N/10 around, bursts, long idle) for N in 1..120 over up to 40 periods of virtual time; all outbound gaps must be <= N+N/10 and unsolicited Heartbeats >= N after the previous outbound message; a sixth of the application sends are refused by an application outgoing handler (not transmitted, so they must not postpone the heartbeat). No wall-clock thresholds.",
+        level_text="Exploration: send/TestRequest instants are generated relative to heartbeat deadlines (just before, at, just after, N/10 around, bursts, long idle) for N in 1..120 over up to 40 periods of virtual time; all outbound gaps must be <= N+N/10 and unsolicited Heartbeats >= N after the previous outbound message; a sixth of the application sends are refused by an application outgoing handler (not transmitted, so they must not postpone the heartbeat); a handler may refuse one unsolicited Heartbeat (one more period allowed) and the application may remove its own all-types handler in mid-history (the session's own handlers must stay). No wall-clock thresholds.",
         level_note="Trusted: synctest's virtual time. Re-logon with another interval is generated for the acceptor only.",
         design_ref="DESIGN.md section 4, C08",
     ),
     "C09": dict(
         technique="property-based testing (rapid arrival patterns) on a virtual clock; deadline windows as oracle",
-        level_text="Exploration: silence / late / answered / steady inbound patterns for N in 1..120; the monitor recomputes from the inbound instants when a TestRequest must and must not be sent and when the disconnect event and handler stop must and must not happen, with windows [T, T+T/10]; in a fifth of the non-steady histories an application outgoing handler refuses every TestRequest (the attempts take the probes' place: a peer silent for a second period is disconnected all the same).",
+        level_text="Exploration: silence / late / answered / steady inbound patterns for N in 1..120; the monitor recomputes from the inbound instants when a TestRequest must and must not be sent and when the disconnect event and handler stop must and must not happen, with windows [T, T+T/10]; in a fifth of the non-steady histories an application outgoing handler refuses every TestRequest (the attempts take the probes' place: a peer silent for a second period is disconnected all the same); for the acceptor a quarter of the histories run the pattern in a second logon on the same connection.",
         level_note="Trusted: synctest's virtual time. Socket closing is observed in C13's full rig, not here.",
         design_ref="DESIGN.md section 4, C09",
     ),
     "C10": dict(
         technique="stateful property-based testing (rapid): recorded first transmissions as reference model for retransmissions; small-number enumeration of (stored, received) Logon sequence numbers",
-        level_text="Exploration: outbound prefixes of mixed administrative and application messages followed by ResendRequests over all range classes; emitted retransmissions are compared byte for byte with the recorded first transmission of the same number, must lie in the requested range and must be complete for ranges inside the sent range (e=0: through the last). A second engine checks the gap ResendRequest on Logon for (c,r) pairs against a preset counter store, a third one lets a real earlier logon (traffic while probing, local or peer logout, or a dropped connection) leave the expected number behind and then logs on again on the same connection or as a new session on the same stores.",
+        level_text="Exploration: outbound prefixes of mixed administrative and application messages followed by ResendRequests over all range classes; emitted retransmissions are compared byte for byte with the recorded first transmission of the same number, must lie in the requested range and must be complete for ranges inside the sent range (e=0: through the last). A second engine checks the gap ResendRequest on Logon for (c,r) pairs against a preset counter store, a third one lets a real earlier logon (traffic while probing, local or peer logout, or a dropped connection) leave the expected number behind and then logs on again on the same connection or as a new session on the same stores. Engine 1 also runs with an application handler that stamps messages and with a message store that keeps messages per StorageID identity.",
         level_note="Trusted: synctest and the recorder. Known finding resend-wrong:reused-object (application reuses a message object) is reported as KNOWN-FINDING; all other mismatches are violations.",
         design_ref="DESIGN.md section 4, C10",
     ),
@@ -65,20 +65,20 @@ TEXT = {
     ),
     "C14": dict(
         technique="stateful property-based testing (rapid): echo equality and answer order in bursts, real session in a synctest bubble",
-        level_text="Exploration: TestReqIDs of 1-5000 arbitrary non-SOH bytes (decoys included) at arbitrary positions of logged-on histories and in bursts delivered without waiting; exactly one fresh Heartbeat per request with the identical ID, in request order, before Rejects of later inbound messages.",
+        level_text="Exploration: TestReqIDs of 1-5000 arbitrary non-SOH bytes (decoys included) at arbitrary positions of logged-on histories and in bursts delivered without waiting; exactly one fresh Heartbeat per request with the identical ID, in request order, before Rejects of later inbound messages. A transport engine sends IDs around the reader's buffer sizes through a real connection, and a third engine serves 2-3 connections from ONE session.Opts while one connection's answer is held back in its store: every peer gets exactly its own IDs back.",
         level_note="Trusted: synctest; retransmissions are recognised by their sequence number and excluded.",
         design_ref="DESIGN.md section 4, C14",
     ),
     "C15": dict(
         technique="property-based testing (rapid) on a virtual clock: Logout counts and the exact instant of context cancellation",
-        level_text="Exploration: peer logout, local logout + answer, and Stop with close timeout {0,1ms,1s,30s} x answer {never, immediately, half, just before, after the deadline} with traffic in between; the cancellation instant is compared to the nanosecond with min(answer, deadline). A quarter of the local endings come while the session's own TestRequest is unanswered (peer silent for N+tolerance).",
+        level_text="Exploration: peer logout, local logout + answer, and Stop with close timeout {0,1ms,1s,30s} x answer {never, immediately, half, just before, after the deadline} with traffic in between; the cancellation instant is compared to the nanosecond with min(answer, deadline). A quarter of the local endings come while the session's own TestRequest is unanswered (peer silent for N+tolerance); between a local Logout()/Stop() and the answer the peer may ask for a resend of everything, which must not bring the Logout out again.",
         level_note="Trusted: synctest's virtual time; intervals >= 40 s keep the session timers out of these histories.",
         design_ref="DESIGN.md section 4, C15",
     ),
     "C16": dict(
         technique="table-driven property-based testing (rapid surroundings around an enumerated (type, damage, state) table); REF-assembled damaged messages",
         level_text="Exploration: each cell of {5 admin types} x {8 kinds of invalidity} x {4 states: waiting, logged on, after logout, logged on with the session's own TestRequest unanswered} is drawn with generated surroundings; exactly one Reject referencing the offender, IsLogged unchanged, nothing stopped, next valid message handled normally.",
-        level_note="Trusted: synctest and harness/ref (which produces exactly the intended damage). Non-numeric fields include the count fields of repeating groups (NoHops in the header, NoMsgTypes in a Logon).",
+        level_note="Trusted: synctest and harness/ref (which produces exactly the intended damage). Non-numeric fields include the count fields of repeating groups (NoHops in the header, NoMsgTypes in a Logon). The valid traffic that follows may include a ResendRequest for everything, which must retransmit the Reject too.",
         design_ref="DESIGN.md section 4, C16",
     ),
     "C18": dict(
@@ -89,13 +89,13 @@ TEXT = {
     ),
     "C19": dict(
         technique="stateful property-based testing with fault injection (rapid): recording/failing store and handlers; invariants over a globally ordered event log",
-        level_text="Exploration: generated handler sets (order, type, refusal pattern, registered before/after the session) and store failures; per message: Save-before-wire, handler order, stop at refusal, bytes seen = bytes sent, the field a later handler reads from the object = the field on the wire (handlers modify header or, in place, body fields), Send's error result; per inbound message: all-types then own-type handlers in registration order. A second engine builds an inbound backlog behind a slow application handler and ends the handler by Stop(), the connection-closed error or the teardown: every accepted message is still offered once, in order.",
+        level_text="Exploration: generated handler sets (order, type, refusal pattern, registered before/after the session) and store failures; per message: Save-before-wire, handler order, stop at refusal, bytes seen = bytes sent, the field a later handler reads from the object = the field on the wire (handlers modify header or, in place, body fields), Send's error result; per inbound message: all-types then own-type handlers in registration order. A second engine builds an inbound backlog behind a slow application handler and ends the handler by Stop(), the connection-closed error or the teardown: every accepted message is still offered once, in order. The application may remove one of its own handlers in mid-history (all others, the session's included, must go on), and every Save must be made under the identity the saved message itself carries.",
         level_note="Trusted: the event log's global order (one mutex) and synctest. Incoming handlers always accept.",
         design_ref="DESIGN.md section 4, C19",
     ),
     "C04": dict(
         technique="property-based testing (rapid) of the real Acceptor/Initiator over a scripted in-memory net.Conn: generated read partitions, timings, connection counts and concurrent senders; sent-list = delivered-list oracle",
-        level_text="Exploration: message streams are cut by generated partitions (one byte per read, cuts inside the CheckSum tag, everything coalesced, chunks > 4096) and fed to 1-4 simultaneous connections with generated virtual delays; the per-connection incoming handler must receive exactly the sent messages (count, order, bytes, one at a time, no cross-talk); concurrently 0-6 goroutines hand messages to Send/SendBatch/SendRaw and the captured outbound stream must split into exactly those messages in hand-off order. The acceptor's new-client callback may take virtual time while the peer's first bytes are already arriving, and the scripted connection honours read deadlines as a socket does.",
+        level_text="Exploration: message streams are cut by generated partitions (one byte per read, cuts inside the CheckSum tag, everything coalesced, chunks > 4096) and fed to 1-4 simultaneous connections with generated virtual delays; the per-connection incoming handler must receive exactly the sent messages (count, order, bytes, one at a time, no cross-talk); concurrently 0-6 goroutines hand messages to Send/SendBatch/SendRaw and the captured outbound stream must split into exactly those messages in hand-off order. The acceptor's new-client callback may take virtual time while the peer's first bytes are already arriving, and the scripted connection honours read deadlines as a socket does. A connection may carry a second subscriber that the application removes in mid-stream (the first must go on receiving), and deliveries are also counted while all connections are still open.",
         level_note="Trusted: netsim (own tests: bytes fed = bytes read for any chunking; deadline semantics), harness/ref.Split, synctest.",
         design_ref="DESIGN.md section 4, C04",
     ),
